@@ -182,12 +182,13 @@ Proof.
   - apply list_eq_nat_eq. exact E2.
 Qed.
 
-Theorem reshape_refines_partial inferred s next (t r : ptensor) nx' :
+(** general form: the premises about the unifier are only needed for the shape actually computed *)
+Theorem reshape_refines_partial_gen inferred s next (t r : ptensor) nx' :
   wf V t -> vars_below V next t -> forallb pos_sizes (vaxes t) = true ->
   (Nat.eqb (prodl' (shape V t)) (pnumel (paxes t)) && (prodl' (shape V t) <=? 1)) = false ->
   pt_reshape V inferred s next t = Ok (r, nx') ->
   wf V r ->
-  (forall s' goals nx st', (inferred = 0 -> s' = s) -> goal_axes s' next = (goals, nx) ->
+  (forall s' goals nx st', s' = shape V r -> (inferred = 0 -> s' = s) -> goal_axes s' next = (goals, nx) ->
      unify (rs_fuel goals t) (productAxis goals) (productAxis (vaxes t)) (ustate0 nx) = Ok (true, st') ->
      (next <= nx)%positive -> (forall e, In e goals -> below nx e) ->
      complete_for nx (productAxis goals) (productAxis (vaxes t)) (us_subst st') /\
@@ -204,7 +205,7 @@ Proof.
   assert (Gbel : forall e, In e goals -> below nx e).
   { intros e He k Hk. apply fv_of_fvn in Hk. destruct Hk as (n & Hk).
     assert (In (k, n) (flat_map fvn goals)) by (apply in_flat_map; eauto). destruct (Gk _ _ H0) as (_ & Hlt & _). exact Hlt. }
-  destruct (Prem s' goals nx st' Hinf EgA Eu Gle Gbel) as (Hc & Hm & [SZ Sz]). fold sigma in Hc, Hm, SZ, Sz.
+  destruct (Prem s' goals nx st' (eq_sym Es) Hinf EgA Eu Gle Gbel) as (Hc & Hm & [SZ Sz]). fold sigma in Hc, Hm, SZ, Sz.
   set (R := mkPT _ _ _ _) in *.
   assert (ShR : shape V R = s') by exact Es.
   split; [rewrite ShR; symmetry; exact En|]. split; [reflexivity|]. intros idx' Bd. rewrite ShR in Bd |- *.
@@ -332,6 +333,25 @@ Proof.
       * unfold inr_s in Inr. rewrite Forall_forall in Inr. specialize (Inr (k0, c) Hc0). cbn [snd] in Inr.
         exact (proj2 (inrange_fvn rh c) Inr kp np Q).
     + rewrite (ClSem rh M). exact Eg'.
+Qed.
+
+Theorem reshape_refines_partial inferred s next (t r : ptensor) nx' :
+  wf V t -> vars_below V next t -> forallb pos_sizes (vaxes t) = true ->
+  (Nat.eqb (prodl' (shape V t)) (pnumel (paxes t)) && (prodl' (shape V t) <=? 1)) = false ->
+  pt_reshape V inferred s next t = Ok (r, nx') ->
+  wf V r ->
+  (forall s' goals nx st', (inferred = 0 -> s' = s) -> goal_axes s' next = (goals, nx) ->
+     unify (rs_fuel goals t) (productAxis goals) (productAxis (vaxes t)) (ustate0 nx) = Ok (true, st') ->
+     (next <= nx)%positive -> (forall e, In e goals -> below nx e) ->
+     complete_for nx (productAxis goals) (productAxis (vaxes t)) (us_subst st') /\
+     solvable (us_subst st') /\
+     size_preserving (us_subst st') (goals ++ paxes_axes' (paxes t))) ->
+  prodl' (shape V r) = prodl' (shape V t) /\ default r = default t /\
+  forall idx', in_bounds (shape V r) idx' ->
+    denote V r idx' = denote V t (unflat (shape V t) (flat_offset (shape V r) idx')).
+Proof.
+  intros W Bt Pos Tiny H Wr Prem. apply (reshape_refines_partial_gen inferred s next t r nx'); trivial.
+  intros s' goals nx st' _. apply Prem.
 Qed.
 
 (** the unification inside [reshape] cannot fail on a target with the right number of elements,
